@@ -162,15 +162,18 @@ class LoopStepDone(Exception):
 class SeqLoopInvariant:
     """inv(E, path, frame, rest_seq, whole_seq) -> z3 Bool over the frame's current locals."""
 
-    def __init__(self, inv, modifies=None, ghost=()):
+    def __init__(self, inv, modifies=None, ghost=(), on_entry=None):
         self.inv = inv
         self.modifies = modifies
         self.ghost = tuple(ghost)       # names of ghost sequences the loop body may extend
+        self.on_entry = on_entry        # on_entry(E, path, frame, entry_dict): snapshot values at loop entry
 
     def run(self, E, path, frame, stmt, iterable):
         U = E.U
         whole = E.symbolic_seq(path, iterable)
         path.ghost["_entry"] = {g: path.ghost.get(g) for g in self.ghost}
+        if self.on_entry is not None:
+            self.on_entry(E, path, frame, path.ghost["_entry"])
         path.oblige("inv.init", self.inv(E, path, frame, whole, whole))
         for g in self.ghost:
             path.ghost[g] = U.fresh("hv_" + g, U.Seq)
